@@ -10,7 +10,7 @@
    discarding the space (Initial / Handshake only); close().  [rcvd s] is the ghost set of recorded packet
    numbers, [mem x q] membership in a range set (proofs/RangeSetP.v). *)
 From AQ Require Import lib.Base model.Codec model.Varint model.RangeSet model.AckFrame gen.C12Consts model.AckQueue
-  proofs.RangeSetP proofs.AckQueueP.
+  proofs.RangeSetP proofs.AckQueueP proofs.AckQueueP2.
 
 (* ack_sound, queue: the ack_queue only ever holds recorded packet numbers *)
 Theorem ack_sound_queue : forall a s, reach a s -> forall x, mem x (aq s) -> In x (rcvd s).
@@ -52,3 +52,83 @@ Print Assumptions get_timer_le.
 Theorem ack_delay_within_advertised : 0 < ACK_DELAY_US <= ADV_MAX_ACK_DELAY_MS * 1000.
 Proof. exact ack_delay_within_advertised_l. Qed.
 Print Assumptions ack_delay_within_advertised.
+
+(* ---- timeliness.  [reach_t dmax a s] (proofs/AckQueueP2.v): as [reach], and additionally the clock is monotone,
+   every acknowledgement delay d = fl(now + _ack_delay) - now handed to the model is within dmax (the harness
+   checks it against the advertised max_ack_delay on every op), the encoded delay field is encodable, and at every
+   send the queue holds at most MAX_ACK_RANGES ranges (beyond that: ack_timely_cap_refuted).  [owed s] is the ghost
+   list of (pn, arrival time) of ack-eliciting packets that carried the largest packet number when recorded
+   (application space: after handshake completion) and that no ACK frame written since covers. *)
+
+(* such a packet enters the list ... *)
+Theorem owed_recorded : forall s pn elic t d dels ok s', recv s pn elic t d dels ok = Ok s' ->
+  ok = true -> closing s = false -> disc s = false -> elic = true -> lrp s < pn -> (app s = true -> complete s = true) ->
+  In (pn, t) (owed s') /\ lrp s' = pn.
+Proof. exact owed_recorded_l. Qed.
+Print Assumptions owed_recorded.
+
+(* ... leaves it only through an ACK frame on the wire that covers it (ALL op sequences, no cap premise) ... *)
+Theorem owed_leaves_only_by_ack : forall s o x, In x (owed s) -> ~ In x (owed (snd (step s o))) ->
+  exists bytes q, fst (step s o) = OSend (SFrame bytes q) /\ mem (fst x) q.
+Proof. exact owed_leaves_only_by_ack_l. Qed.
+Print Assumptions owed_leaves_only_by_ack.
+
+(* ... and while it is there (live connection, space not discarded) it is still queued and the ACK timer is armed no
+   later than arrival + dmax: the pending ACK is never silently dropped (ack_timely, timer part; with get_timer_le:
+   get_timer() <= arrival + dmax) *)
+Theorem ack_timely_pending : forall dmax a s L t, reach_t dmax a s -> closing s = false -> disc s = false ->
+  In (L, t) (owed s) -> mem L (aq s) /\ exists x, ack_at s = Some x /\ x <= t + dmax.
+Proof. exact ack_timely_pending_l. Qed.
+Print Assumptions ack_timely_pending.
+
+(* ack_timely, send part (application space): a datagrams_to_send at u >= ack_at -- u > ack_at, or the pacer lets a
+   packet through (the code skips pacing only when ack_at < now) -- whose packet has room for the frame writes an
+   ACK frame built from the whole queue, which covers every owed packet; nothing stays owed, the timer is cleared *)
+Theorem ack_timely_send : forall dmax s L t0 x u delay room blocked, reach_t dmax true s -> closing s = false ->
+  In (L, t0) (owed s) -> ack_at s = Some x -> x <= u -> (x < u \/ blocked = false) -> clk s <= u ->
+  Zlen (aq s) <= MAX_ACK_RANGES -> ack_capacity (aq s) <= room -> 0 <= delay < 2 ^ 62 ->
+  exists bytes s', send s u delay room blocked = (SFrame bytes (aq s), s') /\ mem L (aq s) /\
+    owed s' = [] /\ ack_at s' = None.
+Proof. exact ack_timely_send_l. Qed.
+Print Assumptions ack_timely_send.
+
+(* Initial / Handshake: the next send that starts a packet of the space (with room) carries the ACK, at any time *)
+Theorem hs_send_carries_ack : forall dmax s L t0 u delay room blocked, reach_t dmax false s -> closing s = false ->
+  disc s = false -> In (L, t0) (owed s) -> clk s <= u ->
+  Zlen (aq s) <= MAX_ACK_RANGES -> ack_capacity (aq s) <= room -> 0 <= delay < 2 ^ 62 ->
+  exists bytes s', send s u delay room blocked = (SFrame bytes (aq s), s') /\ mem L (aq s) /\ owed s' = [].
+Proof. exact hs_send_carries_ack_l. Qed.
+Print Assumptions hs_send_carries_ack.
+
+(* ---- pruning on ACK-of-ACK *)
+(* what _on_ack_delivery(ACKED, highest) removes lies in [0, highest] ... *)
+Theorem prune_only_below : forall q h q' x, wf q -> deliver q h = Ok q' -> mem x q -> ~ mem x q' -> 0 <= x <= h.
+Proof. exact prune_only_below_l. Qed.
+Print Assumptions prune_only_below.
+
+(* ... and is never an owed packet, whichever of the ACK frames written so far get acknowledged, in any order *)
+Theorem prune_keeps_owed : forall dmax a s L t dels q', reach_t dmax a s -> closing s = false -> disc s = false ->
+  In (L, t) (owed s) -> (forall h, In h dels -> exists q, In (q, h) (frames s)) ->
+  delivers (aq s) dels = Ok q' -> mem L q'.
+Proof. exact prune_keeps_owed_l. Qed.
+Print Assumptions prune_keeps_owed.
+
+(* REFUTED: "pruning removes only packet numbers that an acknowledged ACK frame reported".  Witness
+   (proofs/AckQueueP2.v prune_witness, replayed on the implementation: corpus/C12/prune-uncovered.json): packet 5 is
+   acknowledged, packet 3 arrives late, the peer acknowledges the first ACK: 3 is recorded, in no frame ever
+   written, no longer queued, and no timer is armed -- an ack-eliciting packet that is never acknowledged. *)
+Theorem prune_uncovered_refuted : exists ops x, reach_run (init true) ops /\
+  let s := run (init true) ops in
+  In x (rcvd s) /\ ~ mem x (aq s) /\ (forall q h, In (q, h) (frames s) -> ~ mem x q) /\ ack_at s = None.
+Proof. exact prune_uncovered_refuted_l. Qed.
+Print Assumptions prune_uncovered_refuted.
+
+(* REFUTED: ack_timely without the premise "at most MAX_ACK_RANGES ranges at the send".  Witness cap_witness
+   (corpus/C12/cap-drops-owed.json): packet 0 is owed; 33 more packets with gaps arrive before the send; the writer
+   keeps the 32 highest ranges: 0 is still owed, in no frame, not queued any more, no timer armed. *)
+Theorem ack_timely_cap_refuted : exists ops L t, reach_run (init true) ops /\
+  let s := run (init true) ops in
+  In (L, t) (owed s) /\ closing s = false /\ ack_at s = None /\ ~ mem L (aq s) /\
+  (forall q h, In (q, h) (frames s) -> ~ mem L q) /\ Zlen (frames s) = 1.
+Proof. exact ack_timely_cap_refuted_l. Qed.
+Print Assumptions ack_timely_cap_refuted.
